@@ -277,3 +277,31 @@ define i32 @f() {
   %c = load i32, i32 addrspace(3)* @e3
   ret i32 %c
 }
+;;; ATOM global/alias-and-ifunc-called-and-used
+define void @f() {
+  ret void
+}
+define void ()* @r() {
+  ret void ()* @f
+}
+@a = weak alias void (), void ()* @f
+@b = alias void (), void ()* @f
+@a2 = alias void (), void ()* @b
+@i = ifunc void (), void ()* ()* @r
+@table = global [3 x void ()*] [void ()* @a, void ()* @f, void ()* @i]
+
+define void @caller() personality i8* null {
+  call void @a()
+  call void @f()
+  call void @a2()
+  call void @b()
+  call void @i()
+  invoke void @a() to label %ok unwind label %lp
+ok:
+  %p = select i1 true, void ()* @a, void ()* @f
+  call void %p()
+  ret void
+lp:
+  %l = landingpad { i8*, i32 } cleanup
+  ret void
+}
